@@ -131,7 +131,10 @@ const void* blockedObj(int id) { return g.t[id].obj; }
 void setTaskNote(const char* n) { if (g.cur) { strncpy(g.t[g.cur].note, n, 63); g.t[g.cur].note[63] = 0; } }
 const char* taskNote(int id) { return g.t[id].note; }
 bool failed() { return g.res && g.res->violated; }
+uint32_t decisionCount(int task, int kind) { return (task >= 0 && task <= MAXT && kind >= 0 && kind < K_NKINDS) ? g.t[task].cnt[kind] : 0; }
 
+void noPreemptEnter() { if (g.cur) g.t[g.cur].nopreempt++; }
+void noPreemptLeave() { if (g.cur) g.t[g.cur].nopreempt--; }
 NoPreempt::NoPreempt() { if (g.cur) g.t[g.cur].nopreempt++; }
 NoPreempt::~NoPreempt() { if (g.cur) g.t[g.cur].nopreempt--; }
 Host::Host() { g_host_depth_export++; if (g.cur) g.t[g.cur].nopreempt++; }
@@ -245,7 +248,7 @@ static void switchTo(int next) {
   if (prev) g.t[prev].saved_errno = errno;
   g.switches++;
   hmix(0x5157); hmix(prev); hmix(next); hmix(g.steps);
-  logText("switch", prev, next, 0);
+  logText("switch", prev, next, prev ? (int64_t)g.t[prev].yields : 0);
   g.cur = next;
   void** save = prev ? &g.t[prev].sp : &g.host_sp;
   void* load = next ? g.t[next].sp : g.host_sp;
@@ -323,7 +326,7 @@ static void slowYield(bool pre) {
       switchTo(next);   // drawNext runs when we are switched back in
       return;
     }
-    if (!recorded) t.switched_in_at = t.yields;   // (a random pre-emption that found nobody to run leaves no trace: replay cannot see it)
+    if (t.yields - t.switched_in_at >= (uint64_t)g.cfg.fair_quantum) t.switched_in_at = t.yields;   // fairness clock restarts only when fairness was due (a random pre-emption that found nobody to run leaves no trace: replay cannot see it)
   }
   drawNext(t);
 }
